@@ -11,18 +11,21 @@ NOTE = ("Trusted: Coq 8.16.1 kernel (no axioms: every property theorem prints 'C
         "translator and by the differential correspondence run, which bounds what has been exercised.")
 CLAIMED = {
     "C03": dict(
-        text="9 theorems. PARSER HALF, full: for EVERY layout tree of the token grammar (scalars, aliases, left-out and properties-only "
+        text="15 theorems. PARSER HALF, full: for EVERY layout tree of the token grammar (scalars, aliases, left-out and properties-only "
              "nodes, block and indentless sequences, block mappings, flow sequences with wrapped and unwrapped single pairs incl. a "
              "left-out key, flow mappings; Key/Value present or absent, trailing commas, either property order), any spans, the parser "
              "model emits exactly the events of the tree (C03_tokens_full, C03_node_continuation); whole STREAMS: any number of "
              "documents with %YAML/%TAG directives, optional '---', any number of '...', keep_tags on/off, anchors local to a document, "
              "ids counting through the stream (C03_stream, C03_directive_table); the fuel 4*tokens+40 of parse_tokens always suffices. "
-             "SCANNER HALF for one text sub-language (single-line flow collections of one-word plain scalars, ', ' and ': ' separators, "
+             "SCANNER HALF for two text sub-languages. FLOW (single-line flow collections of one-word plain scalars, ', ' and ': ' separators, "
              "single pairs in sequences, nesting <= 255, any length): scan_str delivers exactly StreamStart, tokens_of(layout), "
              "StreamEnd and run_str emits exactly the denoted events (C03_flow_text_tokens, C03_flow_text_events) - text to events "
              "end to end, incl. the simple-key back-insertion, implicit-mapping states, 127-character chunks and both ways a key goes "
-             "stale. Everything else of the scanner half (block structure, multi-line flow, comments, quoted scalars, properties in "
-             "text) is covered by the tie only. Tie/oracle: 24k (300k) random node trees x an independent spec-derived renderer "
+             "stale; a pair key of a flow sequence longer than 1024 characters is scan error 98 at its ':' (C03_flow_long_key_rejected). BLOCK (C03_block_text_tokens, "
+             "C03_block_text_events): nested block sequences and block mappings of one-word scalars, compact, below and indentless placement, any indentation, depth <= 255: "
+             "the indent stack with roll/unroll of several levels, Key/BlockMappingStart back-insertion, required and stale block keys, BlockEnd batches at the end. "
+             "The dispatcher of the scanner model is the one regenerated from the source (C03_scanner_dispatcher_is_source). Everything else of the scanner half "
+             "(flow inside block, multi-line flow, comments, quoted scalars, properties in text) is covered by the tie only. Tie/oracle: 24k (300k) random node trees x an independent spec-derived renderer "
              "(indent widths, placement, comments, blank lines, styles, property order, 1-3 documents, directives), events computed "
              "from the tree, str and iterator back-ends, model pipeline vs implementation; yaml-test-suite non-error cases and "
              "layout-preserving variants; the real token stream vs tokens_of for the theorem's text class. All six recorded C03 "
@@ -67,13 +70,8 @@ CLAIMED = {
         text=open(os.path.join(V, "design", "C13_manifest.txt")).read().strip(),
         ref="DESIGN.md 5/C13", tech="Rocq proof (text -> tokens: symbolic execution of the scanner model on every JSON text, reusing C04's scalar-loop lemmas; tokens -> value: induction on the value; composed into a theorem about the whole model pipeline) + token-stream correspondence + oracle on implementation"),
     "C18": dict(
-        text="7 theorems: encoding detection (BOM / first-ASCII-character preconditions stated exactly) picks the right encoding for ALL "
-             "texts; decode_loop over an ABSTRACT decoder satisfying an explicit contract (Section hypotheses) terminates within linear "
-             "fuel and never hits the modelled slice/index panics for ALL inputs and traps, given DECODER_K <= RESERVE_MIN where "
-             "RESERVE_MIN is regenerated from encoding.rs each run; refutation witness for RESERVE_MIN = 0. encoding_rs itself is trusted. "
-             "Tie/oracle: texts x 6 encodings x 7 trap configurations vs loading the text; exhaustive short byte strings and random "
-             "bytes vs Python codecs; watchdog for termination. Known finding: a leading BOM is not skipped when loading text directly.",
-        ref="DESIGN.md 5/C18", tech="Rocq proof (detection; termination under a decoder contract; constant regenerated from source) + differential correspondence vs Python codecs + watchdog"),
+        text=open(os.path.join(V, "design", "C18_manifest.txt")).read().strip(),
+        ref="DESIGN.md 5/C18", tech="Rocq proof (executable models of the UTF-8 and UTF-16 decoders of encoding_rs meet the loop contract; decode = independent one-shot specification for all four traps and every byte string; termination; round trips) + extracted decoder models and specification vs the real decode incl. every trap-callback invocation + Python codecs"),
     "C15": dict(
         text="28 theorems. PARSER, all token lists: every DocumentEnd step empties the anchor table and (unless keep_tags) the tag table; renumbering (raising the anchor counter by d shifts every id by d); tail simulation; C15_composition: if 'A' and 'B' are each accepted token streams then A DocumentEnd B is accepted with events(A) followed by events(B), B's anchor ids shifted by the number of anchored nodes of A - also for parse_all, for any number of streams, and closed under gluing. SCANNER, generic over the input, all reachable states: every character-level scanner is a frame (leaves simple keys, flow level, implicit-mapping stack, queue alone); skeleton invariant (|simple keys| = flow level + 1, indent chain, length sc_ifms = flow level) preserved by fetch_next_token, hence between documents (flow level 0) there is no flow state left; after a document marker the skeleton is the post-StreamStart configuration. SCANNER, POSITION SHIFT (relational proof over every scanner function, string input): two runs on the same remaining text whose states differ only by a constant offset of index, line and token count deliver the same tokens and the same error, shifted (fetch_next_token, fetch_more_tokens, next_token, scan_all, all fuels); TAIL INDEPENDENCE: from the state behind a document marker line the scanner delivers what it delivers on the rest of the text alone, minus StreamStart, shifted by where it stands (also stated for a text X and the k-th delivered token); the parser commutes with the shift; TEXT LEVEL: if A and B are each accepted and scanning A...B reaches the boundary having delivered tokens(A) minus StreamEnd and DocumentEnd (named hypothesis boundary_reached, discharged in the Examples, not in general), then run_str(A ++ '...' ++ B) is accepted with events(A) followed by events(B), anchor ids renumbered. Missing: boundary_reached in general (every scalar scanner ends at a marker line as at end of input), the '---' boundary, keep_tags = true composition. Tie/oracle: accepted streams of the C01 space concatenated 2-4 at a time with '...' lines must parse to the parts' events with anchor ids renumbered (two back-ends); regression streams of the repaired classes (4c68b1d, e9e1eb4, 3018bbd, ad74b3e); cross-document alias probes through iterator and loader. No open known finding.",
         ref="DESIGN.md 5/C15", tech='Rocq proof (composition theorem on token streams; scanner skeleton invariant and marker reset for all reachable states; relational proof that the whole scanner commutes with a position shift, tail independence at a document boundary) + concatenation oracle on implementation + differential correspondence'),
